@@ -28,7 +28,8 @@ ASSUMPTIONS = [
 FLOORS = {'library_calls': 20000, 'formula_calls': 300,
           'identity_checks': 200, 'functions_seen': 13,
           'non_text_arguments': 50, 'text_form_views': 100,
-          'blank_count_cases': 40, 'texts_spelt_like_names': 300}
+          'blank_count_cases': 40, 'texts_spelt_like_names': 300,
+          'long_concatenation_chains': 40}
 ANCHOR_FUNCS = {'xlcalculator/xlfunctions/text.py': [
     'LEN', 'LEFT', 'RIGHT', 'MID', 'FIND', 'REPLACE', 'UPPER', 'LOWER',
     'TRIM', 'EXACT', 'CONCAT', 'CONCATENATE']}
@@ -482,6 +483,48 @@ def run(ctx):
                          {'identity': name, 'formula': text,
                           'observed': got}, monitor='identities',
                          group='identity:' + name)
+    # ---- long & chains (the operator has no limit on the number of operands;
+    # a formula may be 8192 characters long) ------------------------------------
+    if ctx.shard in (2, 3) or thorough:
+        for n_ops in (200, 254, 255, 256, 300, 520):
+            pieces = [rng.choice(['a', 'B', 'cd', '7', ' ', 'é', 'xyz'])
+                      for _ in range(n_ops)]
+            cells = {f'A{i + 1}': p for i, p in enumerate(pieces)
+                     if p != ' '}
+            cells.update({f'A{i + 1}': 'q' for i, p in enumerate(pieces)
+                          if p == ' '})
+            pieces = [p if p != ' ' else 'q' for p in pieces]
+            joined = ''.join(pieces)
+            chain = '&'.join(f'A{i + 1}' for i in range(n_ops))
+            half = n_ops // 2
+            left = '&'.join(f'A{i + 1}' for i in range(half))
+            right = '&'.join(f'A{i + 1}' for i in range(half, n_ops))
+            forms = {
+                f'={chain}': ('text', joined),
+                f'=LEN({chain})': ('num', float(len(joined))),
+                f'=({left})&({right})': ('text', joined),
+                f'=RIGHT({chain},3)': ('text', joined[-3:]),
+                f'=EXACT({chain},CONCAT(A1:A{n_ops}))': ('bool', True)
+                if n_ops <= 254 else None,
+                f'=LEN(({left})&"tail")': ('num',
+                                           float(len(''.join(pieces[:half]))
+                                                 + 4)),
+            }
+            forms = {k: v for k, v in forms.items()
+                     if v is not None and len(k) < 8192}
+            outs = subject.eval_batch(list(forms), cells)
+            for (text, want), got in zip(forms.items(), outs):
+                ctx.event('formula_calls')
+                ctx.event('long_concatenation_chains')
+                ctx.case(('long-&', n_ops, text[:12]))
+                if got != ('value', want):
+                    ctx.fail(f'{text[:60]}... ({n_ops} operands joined by &): '
+                             f'observed {str(got)[:200]}, expected '
+                             f'{str(want)[:120]}',
+                             {'operands': n_ops, 'formula': text[:300],
+                              'observed': str(got)[:400]},
+                             monitor='string-semantics',
+                             group=f'long-&:{got[0]}')
     # ---- a workbook with defined names: a text that happens to be SPELT like
     # one of the names (or like a cell address, a function, a sheet) is still
     # that text ----------------------------------------------------------------
